@@ -398,14 +398,14 @@ class C01(Spec):
         quick = tier == 'quick'
         cs = []
         if boost == 1: cs += shape_cases(quick)
-        nex = (120 if quick else 1500) * boost
+        nex = (120 if quick else 3000) * boost
         for i in range(nex):
             big = (i % 9 == 8)
             if quick: nops, maxobj = (420, 400) if big else (rng.randrange(30, 130), rng.randrange(8, 60))
             else: nops, maxobj = (rng.choice([2500, 5000]), rng.choice([1200, 3000])) if (i % 40 == 39) else ((900, 600) if big else (rng.randrange(30, 250), rng.randrange(8, 120)))
             sh = gen_exact(rng, nops, maxobj, ncollect=max(2, nops // rng.choice([8, 15, 30])))
             cs.append(Case(f'exact{i}', sh.lines, meta=dict(stats=sh.stats)))
-        nfu = (50 if quick else 600) * boost
+        nfu = (50 if quick else 1200) * boost
         for i in range(nfu):
             nops = rng.randrange(60, 220) if quick else rng.randrange(60, 900)
             sh = gen_full(rng, nops, rng.choice([3, 6, 12]))
